@@ -74,6 +74,10 @@ SCRIPTS['r'] = ('(declare-fun f (Int) Int)(declare-fun g (Int Int) Int)'
                 '(assert (> (+ (f a) (g b c)) (* (g a b) (f c))))'
                 '(assert (= (+ a b) (+ c a)))(check-sat)')
 
+# a pickle of more than 4 KiB
+SCRIPTS['k4'] = ('(declare-const x Int)' + ''.join(
+    f'(assert (> (+ x {i}) x))' for i in range(10, 50)) + '(check-sat)')
+
 MUTSETS = {
     'consts': ['Constants'],
     'late': ['SimplifySymbolNames', 'ReplaceByVariable'],
@@ -144,6 +148,7 @@ KEYS = {
     'g': ['x', 'y', 'p', 'q', 'xor', 'bvcomp'],
     'h': ['f1', 'f4', 'f8', 'f9', 'check-sat', 'declare-const'],
     'k': ['x', '12', '17', '21', '>', '+'],
+    'k4': ['x', '12', '27', '48', '>', '+'],
     'm': ['c', 'd', 'mix', 'distinct', '=', 'check-sat'],
     'n': ['|x|', '!', ':named', 'a1', '>', 'set-logic'],
     'p': ['x', '>', '<', '1', '5', 'check-sat'],
